@@ -19,7 +19,8 @@
 // exit / join.  lean/Drivers/C07.lean replays it through the ticket-level model.
 //
 // ORACLE (evaluated here on the real code, independent of the model), reported as `ev ORACLE <kind> …`:
-//   not-inside      a task ran on a thread for which executor.is_running_in() was false
+//   not-inside      a task ran on a thread for which executor.is_running_in() was false, or the thread did
+//                   not report the pool again after a nested InplaceExecutor call had returned
 //   ran-twice       a task function was entered more than once
 //   rejected-ran    a failed submission ran, or yielded a valid future, or a pool submission failed
 //   not-drained     stop()/destructor/join() returned while a task accepted before it was called, or a
@@ -61,6 +62,7 @@ struct Spec {
   bool use_execute = true;   // execute (future) or submit (int)
   bool via_inplace = false;  // submitted from inside a foreign InplaceExecutor scope
   int rejects = 0;           // failing submissions (base Executor) this task makes before its children
+  bool linger = false;       // after spawning its children the task stays busy until stop() has been called
 };
 
 struct Book {
@@ -68,6 +70,7 @@ struct Book {
   std::vector<int> runs, done, accepted, pre, local, rejected_id;
   std::vector<Future<int>> fut;
   bool stop_called = false;
+  int lingering = 0;  // tasks that have spawned their children and are waiting for stop() to begin
   int next_reject = 0;
   int value(int id) const { return id * 7 + 3; }
   void resize(size_t n) {
@@ -163,9 +166,19 @@ struct PoolRun {
           submit_task(k);
           vrt_event("scope_leave");
         });
+        // the nested executor's scope has ended: this thread must report the pool again
+        if (!pool->is_running_in())
+          vrt_event("ORACLE not-inside task %d: is_running_in() is false after a nested InplaceExecutor call returned", id);
       } else {
         submit_task(k);
       }
+    }
+    if (s.linger) {
+      // stay busy (children possibly still in the local queue) until stop() has begun, then a little longer
+      ++b.lingering;
+      for (int spin = 0; spin < 4000 && !b.stop_called; ++spin) sched_yield();
+      for (int spin = 0; spin < 12; ++spin) sched_yield();
+      --b.lingering;
     }
     vrt_event("done %d", id);
     b.done[id] = 1;
@@ -289,16 +302,31 @@ static void run_pool(uint64_t seed, bool hold) {
     for (auto& s : R.b.t)
       if (!keep[s.id]) s.parent = -2;  // unreachable: never submitted
   }
+  // linger runs: one or two tasks with children stay busy until stop() has begun, so that stop() finds
+  // freshly spawned children in local queues (and a balance thread that may still sweep them)
+  bool linger_run = !hold && klass == 0 && L > 0 && rng.pct(60);  // klass 0: no queue can fill, nobody blocks
+  if (linger_run) {
+    int want = 1 + (int)rng.below(2);
+    for (auto& s : R.b.t)
+      if (want > 0 && s.parent != -2 && !s.kids.empty()) {
+        s.linger = true;
+        --want;
+      }
+    bool any = false;
+    for (auto& s : R.b.t) any = any || s.linger;
+    linger_run = any;
+  }
   bool use_dtor = rng.pct(30);
   int wait_mode = (int)rng.below(3);  // 0 stop at once, 1 wait for the roots' futures, 2 wait for some
   if (klass != 0 && !hold && wait_mode == 0 && rng.pct(60)) wait_mode = 1;
+  if (linger_run) wait_mode = 0;  // a lingering task waits for stop(): nobody may wait for it first
   int wakeups = rng.pct(30) ? 1 + (int)rng.below(2) : 0;
 
   alignas(ThreadPoolExecutor) static unsigned char storage[sizeof(ThreadPoolExecutor)];
   vrt_unname_all();
   vrt_begin(seed);
-  printf("RUN %lu mode=pool W=%d L=%d G=%d steal=%d bal=%d klass=%d dtor=%d wait=%d balus=%d\n", (unsigned long)seed, W, L, G, (int)steal,
-         bal >= 0 ? 1 : 0, klass, (int)use_dtor, wait_mode, bal);
+  printf("RUN %lu mode=pool W=%d L=%d G=%d steal=%d bal=%d klass=%d dtor=%d wait=%d balus=%d linger=%d\n", (unsigned long)seed, W, L, G,
+         (int)steal, bal >= 0 ? 1 : 0, klass, (int)use_dtor, wait_mode, bal, (int)linger_run);
   auto* pool = new (storage) ThreadPoolExecutor;
   R.pool = pool;
   pool->set_worker_number(0);
@@ -351,6 +379,10 @@ static void run_pool(uint64_t seed, bool hold) {
         if (v != R.b.value(s.id)) vrt_event("ORACLE future root %d holds %d, expected %d", s.id, v, R.b.value(s.id));
       }
     }
+  }
+  if (linger_run) {
+    // wait (bounded) until a lingering task has spawned its children
+    for (int spin = 0; spin < 20000 && R.b.lingering == 0; ++spin) sched_yield();
   }
   vrt_event("stop_begin");
   R.b.stop_called = true;
